@@ -325,6 +325,22 @@ def C_unchanged_pairs(repo, clause):
             crt = n.value.func.value.id
     ok = len(args) == 2 and args[0] == crt and args[1] == ast.unparse(sp)
     obs.append(Ob("Cpair", clause, rp, c, ok, "shared atoms are looked up as (replacement pattern, search pattern), both already in the common frame", slot="call-order"))
+    # the shared-atom tolerance is the callee's own small default (same coordinates), not a matching tolerance
+    callee = repo.fn("find_unchanged_atom_pairs")
+    tol_param = [p for p in callee.params if p not in callee.params[:2]]
+    widened = None
+    for p in tol_param:
+        a = get_arg(c, callee.params, p)
+        if a is not None:
+            d = callee.param_defaults().get(p)
+            av = const_value(expand(rp, a))
+            dv = const_value(d) if d is not None else None
+            if not (av is not None and dv is not None and av <= dv):
+                widened = (p, a)
+    obs.append(Ob("Cpair", clause, rp, c, widened is None,
+                  "atoms count as shared only when their coordinates coincide: the call %s" % (
+                      "keeps the callee's tolerance" if widened is None else "overrides %s with %s (a looser tolerance keeps an old atom where the replacement moved it)" % (widened[0], ast.unparse(widened[1]))),
+                  slot="shared-atom-tolerance"))
     # called after both origin shifts
     pre = [x for x in calls_in(rp) if isinstance(x.func, ast.Attribute) and x.func.attr == "translate" and RL.loop not in list(rp.ancestors(x))]
     ok = len(pre) == 2 and all(rp.cfg.dominates(rp.stmt_of(x), rp.stmt_of(c)) for x in pre)
